@@ -213,10 +213,29 @@ func guarded(name string, src []byte, f func() error) entryResult {
 	ch := make(chan entryResult, 1)
 	go func() { ch <- guardedInline(name, f) }()
 	limit := 30*time.Second + time.Duration(len(src))*200*time.Microsecond
-	select {
-	case r := <-ch:
-		return r
-	case <-time.After(limit):
+	deadline := time.After(limit)
+	// a loop that also allocates must not take the machine down before the
+	// time limit is reached: 6 GB of live heap (five orders of magnitude
+	// above normal) ends the case as a runaway
+	tick := time.NewTicker(250 * time.Millisecond)
+	defer tick.Stop()
+	for {
+		key, why := "", ""
+		select {
+		case r := <-ch:
+			return r
+		case <-deadline:
+			key, why = "hang", fmt.Sprintf("did not return within %v", limit)
+		case <-tick.C:
+			var m runtime.MemStats
+			runtime.ReadMemStats(&m)
+			if m.HeapAlloc > 6<<30 {
+				key, why = "runaway-memory", fmt.Sprintf("holds %d MB of heap and has not returned", m.HeapAlloc>>20)
+			}
+		}
+		if key == "" {
+			continue
+		}
 		dir := os.Getenv("VERIF_WORK")
 		if dir == "" {
 			dir = os.TempDir()
@@ -224,12 +243,11 @@ func guarded(name string, src []byte, f func() error) entryResult {
 		os.MkdirAll(dir, 0o755)
 		p := filepath.Join(dir, "hang.input")
 		os.WriteFile(p, src, 0o644)
-		fmt.Printf("VKEY=C08/hang %s did not return within %v on a %d byte input (saved to %s): %q\n", name, limit, len(src), p, stats.Trunc(string(src), 2000))
+		fmt.Printf("VKEY=C08/%s %s %s on a %d byte input (saved to %s): %q\n", key, name, why, len(src), p, stats.Trunc(string(src), 2000))
 		fmt.Println("[rapid] failed: hang (process exits without shrinking)")
 		stats.Flush()
 		os.Exit(1)
 	}
-	panic("unreachable")
 }
 
 func guardedInline(name string, f func() error) (r entryResult) {
